@@ -197,7 +197,60 @@ func c15Literals(c *Ctx) {
 	c.Floor("literal.diag", n, 260, "271 Diagnostic literals counted in non-test function bodies on the pinned tree")
 }
 
-func c15Progress(c *Ctx) {}
+// R2: token progress in parser loops (E-progress).
+func c15Progress(c *Ctx) {
+	c.Rule("R2 progress: every cycle of the CFG of every function in hclsyntax/parser*.go and json/parser.go that inspects the token stream (calls a peeker/templateParser method or a function that may) and is not bounded by a range loop contains a call that always consumes a token ((*peeker).Read, (*templateParser).Read, or a function every path of which reaches one); a cycle without one cannot terminate by running out of input")
+	prims := map[*ssa.Function]bool{}
+	for _, a := range [][2]string{{"hclsyntax", "peeker.Read"}, {"hclsyntax", "templateParser.Read"}, {"json", "peeker.Read"}} {
+		f := c.P.LookupFunc(a[0], a[1])
+		if f == nil {
+			c.CheckerFail("progress", "anchor "+a[0]+"."+a[1]+" does not resolve")
+			return
+		}
+		prims[f] = true
+	}
+	fns := c.P.pkgFuncs("hclsyntax", "json")
+	stream := map[*ssa.Function]bool{}
+	for _, f := range fns {
+		if r := f.Signature.Recv(); r != nil && f.Parent() == nil {
+			if isNamed(r.Type(), hclsyntaxPath, "peeker") || isNamed(r.Type(), hclsyntaxPath, "templateParser") || isNamed(r.Type(), modPath+"/json", "peeker") {
+				stream[f] = true
+			}
+		}
+	}
+	e := newProgress(fns, prims, stream)
+	nLoops, nConsuming := 0, 0
+	for _, f := range fns {
+		file := c.P.Position(f.Pos())
+		inScope := strings.HasPrefix(file, "hclsyntax/parser") || strings.HasPrefix(file, "json/parser.go")
+		if !inScope {
+			continue
+		}
+		name := FuncName(f)
+		if e.always[f] {
+			nConsuming++
+		}
+		for _, lp := range e.Loops(f) {
+			nLoops++
+			c.Fn(name)
+			key := fmt.Sprintf("%s:loop", name)
+			switch lp.kind {
+			case "stuck":
+				c.Fail("progress", key, lp.pos, "loop has a cycle that consumes no token ("+lp.detail+"): it cannot terminate by exhausting the input")
+			case "consumes":
+				c.OK("progress", key, lp.pos, "every cycle passes a token-consuming call")
+			case "range":
+				c.OK("progress", key, lp.pos, "bounded range loop")
+			case "data":
+				c.OK("progress", key, lp.pos, "data loop: no cycle inspects the token stream (out of scope of the token-progress rule)")
+			default:
+				c.Undecided("progress", key, lp.pos, "loop without classification")
+			}
+		}
+	}
+	c.Floor("progress loops", nLoops, 20, "≈ 25 loops in the token parsers")
+	c.Floor("progress always-consuming functions", nConsuming, 8, "recover*, parseExpr etc.")
+}
 
 // R3: no marked-value panic (E-unmarked).
 func c15Unmarked(c *Ctx) {
